@@ -13,8 +13,11 @@ import (
 	"hash"
 	"reflect"
 	"sort"
+	"net/http"
+	"net/url"
 	"strconv"
 	"strings"
+	"sync/atomic"
 	"time"
 
 	jose "github.com/go-jose/go-jose/v4"
@@ -238,7 +241,8 @@ var assertCache = map[string]string{}
 var assertMu = make(chan struct{}, 1)
 
 func assertion(iss, aud string, now time.Time) string {
-	payload := fmt.Sprintf(`{"iss":%q,"sub":%q,"aud":[%q],"iat":%d,"exp":%d}`, iss, iss, aud, now.Unix(), now.Add(10*time.Minute).Unix())
+	pb, _ := json.Marshal(map[string]any{"iss": iss, "sub": iss, "aud": []string{aud}, "iat": now.Unix(), "exp": now.Add(10 * time.Minute).Unix()})
+	payload := string(pb)
 	assertMu <- struct{}{}
 	defer func() { <-assertMu }()
 	if s, ok := assertCache[payload]; ok {
@@ -279,7 +283,11 @@ func judge(d *driver, o *flowOut) engine.Result {
 		// panics are the business of C09/C15: no token was issued, nothing to judge here, not reported under C06
 		return engine.OK(rule, "panic")
 	}
+	lenient := c.lenient()
 	if o.stage != "" {
+		if lenient != "" {
+			return engine.OK(rule, "either:refused-"+lenient) // nothing was issued; the statement does not oblige the OP to serve this request
+		}
 		return notServed("precursor-failed", fmt.Sprintf("precursor step %q failed: status %d body %.200s loc %s panic %.200s", o.stage, o.resp.Status, o.resp.Body, o.resp.Header.Get("Location"), o.resp.Panic))
 	}
 	okStatus := o.resp.Status == 200
@@ -287,6 +295,9 @@ func judge(d *driver, o *flowOut) engine.Result {
 		okStatus = o.resp.Status/100 == 3
 	}
 	if !okStatus || o.params["error"] != "" {
+		if lenient != "" {
+			return engine.OK(rule, "either:refused-"+lenient)
+		}
 		return notServed("refused", fmt.Sprintf("final request refused: status %d error %q (%s) body %.200s", o.resp.Status, o.params["error"], o.params["error_description"], o.resp.Body))
 	}
 	at, idt := o.params["access_token"], o.params["id_token"]
@@ -342,6 +353,10 @@ func judge(d *driver, o *flowOut) engine.Result {
 			vd = checkResponse(o, stored)
 		}
 	}
+	readers := ""
+	if vd == nil && at != "" {
+		vd, readers = probeReaders(d, o, at, stored)
+	}
 	uc := "-"
 	if vd == nil && idt != "" {
 		var present bool
@@ -363,6 +378,9 @@ func judge(d *driver, o *flowOut) engine.Result {
 		rtp = "y"
 	}
 	shape := fmt.Sprintf("id=%s at=%s rt=%s uc=%s", idp, atKind, rtp, uc)
+	if readers != "" && readers != "attributed" {
+		shape += " readers=" + readers
+	}
 	if len(e.filled) > 0 {
 		shape += " custom-fills-absent" // Either: custom claims named like registered claims the token does not carry
 	}
@@ -703,4 +721,84 @@ func probe(d *driver, o *flowOut, ks *jwks, rule, at, idt, atKind string) engine
 	}
 	sort.Strings(classes)
 	return engine.OK(rule, "probe-rejected:"+strings.Join(classes, "+"))
+}
+
+// ---------------------------------------------------------------------------
+// readers: the issued access token is presented to every place of the library that reads access tokens
+// (userinfo, introspection, token exchange as subject token, revocation). Judged by what the reader hands to the
+// storage: it must be the id and the subject of the token the storage created for this response - whatever characters
+// the subject contains. What the endpoint answers afterwards (claims, active, 403 ...) is the business of C08.
+// A subject that contains ':' is the one exception the documented format <id>:<subject> leaves open: a reader may
+// refuse such a token (Either), but if it resolves it, then to the stored id and subject.
+// The caller is always the plain client "web" (its credentials are not what is examined here).
+
+var readerStats struct {
+	attributed, colonRefused atomic.Int64
+}
+
+type readerProbe struct {
+	name   string
+	method string // storage method that receives what the reader extracted
+	idArg  int
+	subArg int
+	req    func() *http.Request
+}
+
+func probeReaders(d *driver, o *flowOut, at string, stored *refstore.Token) (*verdict, string) {
+	colon := strings.Contains(stored.Subject, ":")
+	bearer := map[string]string{"Authorization": "Bearer " + at}
+	basic := map[string]string{"Authorization": webAuth}
+	probes := []readerProbe{
+		{"userinfo", "SetUserinfoFromToken", 0, 1, func() *http.Request { return rig.Req("GET", "/userinfo", nil, bearer) }},
+		{"introspection", "SetIntrospectionFromToken", 0, 1, func() *http.Request {
+			return rig.Req("POST", "/oauth/introspect", url.Values{"token": {at}}, basic)
+		}},
+		// the reference storage vetoes the exchange after it has journalled what the framework read from the subject token:
+		// nothing is issued, the state stays as it is
+		{"exchange", "ValidateTokenExchangeRequest", 2, 0, func() *http.Request {
+			return rig.Req("POST", "/oauth/token", url.Values{"grant_type": {string(oidc.GrantTypeTokenExchange)}, "subject_token": {at},
+				"subject_token_type": {string(oidc.AccessTokenType)}, "requested_token_type": {string(oidc.AccessTokenType)}}, basic)
+		}},
+		{"revocation", "RevokeToken", 0, 1, func() *http.Request {
+			return rig.Req("POST", "/revoke", url.Values{"token": {at}, "token_type_hint": {"access_token"}}, basic)
+		}},
+	}
+	out := "attributed"
+	for _, p := range probes {
+		if p.name == "exchange" {
+			d.r.Core.Cfg.Exchange.Veto = true
+		}
+		from := d.r.Core.JournalLen()
+		resp := d.do(true, p.req())
+		d.r.Core.Cfg.Exchange.Veto = false
+		if resp.Panic != "" {
+			return nil, "panic" // C09's business
+		}
+		var call *refstore.Call
+		for _, j := range d.r.Core.JournalCopy()[from:] {
+			if j.Method == p.method {
+				j := j
+				call = &j
+				break
+			}
+		}
+		resolved := call != nil && len(call.Args) > p.idArg && len(call.Args) > p.subArg
+		if resolved && p.name == "revocation" && call.Args[p.subArg] == "" && call.Args[p.idArg] == at {
+			resolved = false // the revocation endpoint passes a token it could not read on to the storage as it came
+		}
+		switch {
+		case resolved && call.Args[p.idArg] == stored.ID && call.Args[p.subArg] == stored.Subject:
+			readerStats.attributed.Add(1)
+		case resolved:
+			return &verdict{"reader-" + p.name + "-attribution", fmt.Sprintf("%s attributes the access token of this response to token id %q / subject %q; the storage created token id %q for subject %q (%s)",
+				p.name, call.Args[p.idArg], call.Args[p.subArg], stored.ID, stored.Subject, *call)}, ""
+		case colon:
+			readerStats.colonRefused.Add(1)
+			out = "colon-refused"
+		default:
+			return &verdict{"reader-" + p.name + "-refused", fmt.Sprintf("%s cannot read the access token the provider has just issued (token id %q, subject %q): status %d body %.200s",
+				p.name, stored.ID, stored.Subject, resp.Status, resp.Body)}, ""
+		}
+	}
+	return nil, out
 }
